@@ -300,9 +300,12 @@ def parse_table(stdout, tag):
     raise core.MachineryFailure("no %s table" % tag)
 
 
-def tangent(run, n, maxlen, pool, limit=None, rng=None):
-    c = core.cfg(constants=dict(N=n, MaxLen=maxlen), init="TInit", next_="TNext", invariants=TAN_INVS, view="TView")
-    r = run.tlc("hyp/HypTangent.tla", c, name="HypTangent_n%d" % n, workers=4, emit_prefix="OBS ")
+def tangent_tlc(run, n, maxlen, thin):
+    c = core.cfg(constants=dict(N=n, MaxLen=maxlen, Thin=thin), init="TInit", next_="TNext", invariants=TAN_INVS, view="TView")
+    return run.tlc("hyp/HypTangent.tla", c, name="HypTangent_n%d" % n, workers=2 if run.tier == "quick" else 4, emit_prefix="OBS ")
+
+
+def tangent(run, n, r, pool, limit=None, rng=None):
     seconds = parse_table(r.stdout, "SECONDS")
     seen = set()
     obs = []
@@ -312,6 +315,9 @@ def tangent(run, n, maxlen, pool, limit=None, rng=None):
             seen.add(k)
             obs.append(e)
     obs.sort(key=lambda e: json.dumps(e["g"]))
+    emitted = len(obs)
+    obs = [e for e in obs if e["guards"]["indomain"]]
+    every = obs
     if limit and len(obs) > limit:
         keep = [e for e in obs if e["len"] <= 1]
         rest = [e for e in obs if e["len"] > 1]
@@ -326,13 +332,16 @@ def tangent(run, n, maxlen, pool, limit=None, rng=None):
             run.actions[a] = run.actions.get(a, 0) + k
         for key, clause, detail in viol:
             run.violation(key, clause, detail)
-    run.nontrivial_count += len(obs)
+    run.nontrivial_count += len(every)
+    run.extra.setdefault("frames", {})["n=%d" % n] = dict(
+        emitted=emitted, in_conformance_domain=len(every), replayed_unit=len(obs), replayed_composite=len(every),
+        model_laws_evaluated=dict(along=sum(1 for e in every if e["guards"]["along"]), turns_and_cosines=sum(1 for e in every if e["guards"]["turns"])))
     if obs:
         e = obs[len(obs) // 2]
         run.sample(dict(kind="tangent frame", n=n, tangent=e["tv"], along=e["along"][:2],
                         turn=dict(cos=e["turns"][1]["cos"], tv=e["turns"][1]["tv"], coshd=e["turns"][1]["coshd"][0][:2]),
                         isometry_to_target=seconds[1]))
-    composite(run, n, obs, seconds)
+    composite(run, n, every, seconds)
 
 
 def composite(run, n, obs, seconds):
@@ -408,11 +417,14 @@ def composite(run, n, obs, seconds):
 # ------------------------------------------------------------------------------------------
 # all pairs of integer points: the unit tangent towards q, followed for d(p,q), arrives at q
 # ------------------------------------------------------------------------------------------
-def pairs(run, n, B, rng):
-    H = hc.H()
-    c = core.cfg(constants=dict(N=n, B=B, Triples=False, SquareOnly=False),
+def pairs_tlc(run, n, B, square):
+    c = core.cfg(constants=dict(N=n, B=B, Triples=False, SquareOnly=square),
                  invariants=["ReversedCauchySchwarz", "Symmetric", "TimeOrientation", "KleinAgrees", "EmitPair"])
-    r = run.tlc("hyp/HypMetric.tla", c, name="HypMetric_pairs_n%d" % n, workers=4, emit_prefix="PAIR ")
+    return run.tlc("hyp/HypMetric.tla", c, name="HypMetric_pairs_n%d" % n, workers=2, emit_prefix="PAIR ")
+
+
+def pairs(run, n, r, rng):
+    H = hc.H()
     es = [e for e in r.emits if e["x"] != e["y"]]
     if not es:
         raise core.MachineryFailure("no pairs of distinct points for n=%d B=%d" % (n, B))
@@ -579,9 +591,12 @@ def poly_case(e):
     return out
 
 
-def polygons(run, pool, quick):
+def polygons_tlc(run, quick):
     c = core.cfg(constants=dict(Dims={2, 3} if quick else {2, 3, 4, 5}, MaxN=12 if quick else 16), invariants=POLY_INVS)
-    r = run.tlc("hyp/HypPolygon.tla", c, name="HypPolygon", workers=2, emit_prefix="CASE ")
+    return run.tlc("hyp/HypPolygon.tla", c, name="HypPolygon", workers=1, emit_prefix="CASE ")
+
+
+def polygons(run, r, pool):
     cases = sorted(r.emits, key=lambda e: json.dumps(e["kase"], sort_keys=True))
     results = pool.map(poly_case, cases, chunksize=4) if pool else map(poly_case, cases)
     for e, viol in zip(cases, results):
@@ -610,14 +625,25 @@ def run(run, replay=None):
         "other (n, j pi/12): measured with the library's own distance/angle only",
         "tolerance 1e-9 relative to the size of the hyperboloid coordinates (1e-8 on cosh of distances between far points)",
     ]
+    # all TLC runs first, a few at a time (threads only wait for the JVMs), then the replay in forked workers
+    from concurrent.futures import ThreadPoolExecutor
+    tplan = {2: (2, False, 170), 3: (2, True, 110), 4: (1, False, None), 5: (1, False, None)} if quick else \
+            {2: (3, True, 1500), 3: (2, False, None), 4: (2, False, 500), 5: (2, False, 400)}
+    pplan = {2: (3, False), 3: (2, False), 4: (2, True), 5: (2, True)} if quick else {2: (5, False), 3: (3, False), 4: (2, False), 5: (2, False)}
+    with ThreadPoolExecutor(max_workers=3 if quick else 4) as ex:
+        ft = {n: ex.submit(tangent_tlc, run, n, L, thin) for n, (L, thin, _) in tplan.items()}
+        fq = ex.submit(polygons_tlc, run, quick)
+        fp = {n: ex.submit(pairs_tlc, run, n, B, sq) for n, (B, sq) in pplan.items()}
+        rt = {n: f.result() for n, f in ft.items()}
+        rq = fq.result()
+        rp = {n: f.result() for n, f in fp.items()}
     pool = multiprocessing.get_context("fork").Pool(4 if quick else 8)
     try:
-        plan = {2: (2, None), 3: (2, 260), 4: (1, None), 5: (1, None)} if quick else {2: (3, 2500), 3: (2, None), 4: (2, 900), 5: (2, 600)}
-        for n, (L, limit) in plan.items():
-            tangent(run, n, L, pool, limit, rng)
-        for n, B in ({2: 3, 3: 2, 4: 2, 5: 2} if quick else {2: 5, 3: 3, 4: 2, 5: 2}).items():
-            pairs(run, n, B, rng)
-        polygons(run, pool, quick)
+        for n, (L, thin, limit) in tplan.items():
+            tangent(run, n, rt[n], pool, limit, rng)
+        for n in pplan:
+            pairs(run, n, rp[n], rng)
+        polygons(run, rq, pool)
     finally:
         pool.close()
         pool.join()
